@@ -11,6 +11,7 @@
 mod cjson;
 mod engine;
 mod forge;
+mod fuzz;
 mod keys;
 mod known;
 mod props;
